@@ -116,6 +116,17 @@ func (t *offTracer) trace(v ssa.Value, depth int) {
 				sort.Strings(all)
 				t.leaves["other:product without a size factor ("+strings.Join(all, ",")+")"] = true
 			}
+		case token.AND_NOT, token.AND:
+			// (size + align - 1) &^ (align - 1): a size rounded up to the next member's alignment
+			// is where that member starts
+			sub := &offTracer{c: t.c, seen: map[ssa.Value]bool{}, seenFld: map[string]bool{}, stores: t.stores, gstores: t.gstores, astores: t.astores, closers: t.closers, leaves: map[string]bool{}}
+			sub.trace(x.X, depth+1)
+			sub.trace(x.Y, depth+1)
+			if sub.leaves["alignment"] {
+				t.leaves["rounded-to-alignment"] = true
+			} else {
+				t.leaves["other:"+x.Op.String()+" without an alignment operand"] = true
+			}
 		default:
 			t.leaves["other:"+x.Op.String()] = true
 		}
